@@ -2,7 +2,7 @@
    Only statements, `exact <lemma>` and Print Assumptions live here.  In every theorem [cs] is an arbitrary list of
    chunks — any number of chunks of any sizes — and the in-memory value is the Spec function of [concat cs]. *)
 From Coq Require Import String ZArith List Bool Lia Sorting.Sorted.
-From BNP Require Import Base.Prims Model.C11 Proofs.C11 Proofs.C11_rechunk Proofs.C11_groupby Proofs.C11_graph Proofs.C11_pipeline Proofs.C11_spec Corr.C11 Proofs.C11_link Gen.C11 Bridge.C11.
+From BNP Require Import Base.Prims Model.C11 Proofs.C11 Proofs.C11_rechunk Proofs.C11_groupby Proofs.C11_graph Proofs.C11_pipeline Proofs.C11_spec Corr.C11 Proofs.C11_link Proofs.C11_expr Proofs.C11_expr_spec Proofs.C11_stranded Proofs.C11_link2 Gen.C11 Bridge.C11.
 Import ListNotations.
 Open Scope Z_scope.
 
@@ -229,6 +229,59 @@ Theorem C11_gen_link : forall g, gen_wellformed g = true ->
 Proof. exact gen_link. Qed.
 Print Assumptions C11_gen_link.
 
+(* T13 arithmetic on a streamed track.  Node.__array_ufunc__ creates one node per operation with the operands in the
+   order they were written; [compile] is that construction.  For every expression, appended to any well-formed graph
+   with a track node: every new node denotes a sub-expression and the result denotes the expression, i.e. buffer i of
+   the node is the expression applied position by position to buffer i of the track — `c - x` and `x - c` alike. *)
+Theorem C11_expr_compile : forall (track : nat) (tv : nat -> option (list Z)) e g nodes opd,
+  graph_ok track tv g -> compile e track (length g) = (nodes, opd) ->
+  graph_ok track tv (g ++ nodes) /\ new_nodes_ok tv g (g ++ nodes) /\ operand_ok tv (g ++ nodes) e opd.
+Proof. exact compile_ok. Qed.
+Print Assumptions C11_expr_compile.
+
+(* end to end: every expression that really involves the track, every query (get_data, sum, histogram, values under
+   windows), every genome, every chunking of the interval streams: streamed = in-memory *)
+Theorem C11_expr_pipeline_spec : forall e q order sizes (csa csb : list (list (Z * iv))),
+  NoDup order -> length order = length sizes -> (0 < length sizes)%nat ->
+  csa <> [] -> csb <> [] -> Forall (fun c => c <> []) csa -> Forall (fun c => c <> []) csb ->
+  ordered order (concat csa) -> ordered order (concat csb) ->
+  (exists nodes t, compile e 5 12 = (nodes, ONode t)) ->
+  run_expr e q order sizes csa csb = Some (spec_expr e q order sizes (concat csa) (concat csb)).
+Proof. exact expr_pipeline_spec. Qed.
+Print Assumptions C11_expr_pipeline_spec.
+
+(* in particular a plain value on the LEFT of a non-commutative ufunc, and on the right *)
+Theorem C11_expr_scalar_both_orders : forall (o : bop) (c : Z) q order sizes (csa csb : list (list (Z * iv))),
+  NoDup order -> length order = length sizes -> (0 < length sizes)%nat ->
+  csa <> [] -> csb <> [] -> Forall (fun c => c <> []) csa -> Forall (fun c => c <> []) csb ->
+  ordered order (concat csa) -> ordered order (concat csb) ->
+  run_expr (TBin o (TConst c) TTrack) q order sizes csa csb
+    = Some (spec_expr (TBin o (TConst c) TTrack) q order sizes (concat csa) (concat csb))
+  /\ run_expr (TBin o TTrack (TConst c)) q order sizes csa csb
+    = Some (spec_expr (TBin o TTrack (TConst c)) q order sizes (concat csa) (concat csb)).
+Proof. exact expr_scalar_both_orders. Qed.
+Print Assumptions C11_expr_scalar_both_orders.
+
+(* T14 values under STRANDED windows (a row is kept for strand '+' and reversed for every other strand symbol, in both
+   worlds) and their mean over axis 0 (equal-columns guard as for unstranded windows) *)
+Theorem C11_stranded_spec : forall p order sizes (csa : list (list (Z * iv))) (csw : list (list (Z * swin))),
+  NoDup order -> length order = length sizes -> (0 < length sizes)%nat ->
+  csa <> [] -> Forall (fun c => c <> []) csa -> Forall (fun c => c <> []) csw ->
+  ordered order (concat csa) -> ordered order (concat csw) ->
+  stranded_guard p order sizes (concat csa) (concat csw) ->
+  run_stranded p order sizes csa csw = Some (spec_stranded p order sizes (concat csa) (concat csw)).
+Proof. exact stranded_spec_current. Qed.
+Print Assumptions C11_stranded_spec.
+
+Theorem C11_gen_extra_link : forall g, gen_wellformed g = true ->
+  forallb (fun c => negb (len c =? 0)) (g_w g) = true ->
+  ordered (gen_order g) (concat (g_a g)) -> ordered (gen_order g) (concat (g_b g)) -> ordered (gen_order g) (concat (g_w g)) ->
+  (forall p s m, In (p, s, m) (g_sruns g) -> stranded_guard p (gen_order g) (g_sizes g) (concat (g_a g)) (concat (g_w g))) ->
+  (forall e q s m, In (e, q, s, m) (g_eruns g) -> exists nodes t, compile e 5 12 = (nodes, ONode t)) ->
+  gen_extra_mem_ok g = true -> gen_extra_model_ok g = true -> gen_extra_spec_ok g = true.
+Proof. exact gen_extra_link. Qed.
+Print Assumptions C11_gen_extra_link.
+
 (* Source tie: the loop conditions, slice bounds, counter updates, component-wise additions, change-point comparison,
    shortcut test, group bounds and buffer-index tests regenerated on this run from /repo (Gen/C11.v, written by
    translate/gen_c11.py from streams/chunk_entries.py, io/parser.py, streams/reductions.py, computation_graph.py and
@@ -285,9 +338,13 @@ Theorem C11_source_tie :
   /\
   (forall (keys : list Z) (data : list Z) s e, (nthZ keys (gen_gb_key_index s e), slice (gen_gb_slice_lo s e) (gen_gb_slice_hi s e) data) = (nthZ keys s, slice s e data))
   /\
-  (gen_join_key_field = 0 /\ gen_join_payload_field = 1).
+  (gen_join_key_field = 0 /\ gen_join_payload_field = 1)
+  /\
+  (forall o c (x : list Z), gen_ufunc_operand_order = "as_written"%string /\ gen_track_ufunc_operand_order = "as_written"%string /\ apply_ufunc o (fill_args [OConst c; ONode 0%nat] [GL x]) = GL (map (bop_eval o c) x) /\ apply_ufunc o (fill_args [ONode 0%nat; OConst c] [GL x]) = GL (map (fun v => bop_eval o v c) x))
+  /\
+  (forall row, gen_stranded_forward_symbol = "+"%string /\ gen_stranded_forward_symbol_mem = "+"%string /\ orient 0 row = row /\ orient 1 row = rev row /\ orient 2 row = rev row).
 Proof.
-  exact (conj b_ce_loop_cond (conj b_ce_size_in (conj b_ce_emit_stop (conj b_ce_carry_start (conj b_ce_size_after (conj b_ce_tail_cond (conj b_cl_loop_cond (conj b_cl_bounds (conj b_cl_after (conj b_sum_and_n (conj b_br_cond (conj b_br_stops (conj b_br_add (conj b_hr_total (conj b_mean_reduction (conj b_add_hist_count (conj b_sum_reduction (conj b_stream_node (conj b_computation_node (conj b_gc_changed (conj b_gc_index (conj b_gb_fast_test (conj b_gb_fast_start (conj b_gb_bounds (conj b_gb_group b_join_fields))))))))))))))))))))))))).
+  exact (conj b_ce_loop_cond (conj b_ce_size_in (conj b_ce_emit_stop (conj b_ce_carry_start (conj b_ce_size_after (conj b_ce_tail_cond (conj b_cl_loop_cond (conj b_cl_bounds (conj b_cl_after (conj b_sum_and_n (conj b_br_cond (conj b_br_stops (conj b_br_add (conj b_hr_total (conj b_mean_reduction (conj b_add_hist_count (conj b_sum_reduction (conj b_stream_node (conj b_computation_node (conj b_gc_changed (conj b_gc_index (conj b_gb_fast_test (conj b_gb_fast_start (conj b_gb_bounds (conj b_gb_group (conj b_join_fields (conj b_ufunc_operand_order b_stranded_forward))))))))))))))))))))))))))).
 Qed.
 Print Assumptions C11_source_tie.
 
@@ -347,3 +404,13 @@ Proof.
   constructor; [right; vm_compute; reflexivity|]. constructor; [left; vm_compute; reflexivity|].
   constructor; [right; vm_compute; reflexivity|constructor].
 Qed.
+
+(* operand order matters and is kept: 10 - p versus p - 10 on a two-chromosome pileup; a '.' window is reversed *)
+Example C11_nonvacuous_phase4 :
+  let csa := [[(0, (1, 4))]; [(0, (2, 6)); (1, (0, 3))]] in
+  run_expr (TBin BSub (TConst 10) TTrack) QSum [0; 1] [6; 4] csa csa = Some (GZ 90)
+  /\ run_expr (TBin BSub TTrack (TConst 10)) QSum [0; 1] [6; 4] csa csa = Some (GZ (-90))
+  /\ (exists nodes t, compile (TBin BSub (TConst 10) TTrack) 5 12 = (nodes, ONode t))
+  /\ run_stranded SValues [0; 1] [6; 4] csa [[(0, ((0, 3), 2)); (1, ((1, 4), 0))]] = Some (GR [[2; 1; 0]; [1; 1; 0]])
+  /\ spec_stranded SValues [0; 1] [6; 4] (concat csa) [(0, ((0, 3), 2)); (1, ((1, 4), 0))] = GR [[2; 1; 0]; [1; 1; 0]].
+Proof. vm_compute. repeat split; try reflexivity. eexists; eexists; reflexivity. Qed.
